@@ -875,6 +875,16 @@ func (env *Env) evalCall(e *Expr) CV {
 		}
 		k := tb.BoundVar("k", BV64)
 		return CV{V: Scalar{tb.Forall([]*Term{k}, tb.Implies(tb.ULt(tb.Sub(k, a), n), tb.Not(tb.Select(old.RA, k))))}, T: boolT}
+	case "oldalloc":
+		// oldalloc(p, n): every byte of [p,p+n) was allocated raw memory in the old state
+		a := r.scalar(arg(0).V)
+		n := argInt(1)
+		old := env.old
+		if old == nil {
+			old = r.rootEntry()
+		}
+		k := tb.BoundVar("k", BV64)
+		return CV{V: Scalar{tb.Forall([]*Term{k}, tb.Implies(tb.ULt(tb.Sub(k, a), n), tb.Select(old.RA, k)))}, T: boolT}
 	case "memframe":
 		// memframe(p, n): raw memory allocated in the old state is unchanged outside [p,p+n)
 		a := r.scalar(arg(0).V)
@@ -1197,6 +1207,16 @@ var eventKinds = map[string]int{"V": 1, "B": 2, "W": 3, "CW": 4, "RV": 5, "RB": 
 
 // useAxiom instantiates an axiom schema at the given argument expressions.
 func (env *Env) useAxiom(e *Expr) *Term {
+	p, q := env.applyLemma(e, false)
+	if p == nil {
+		return q
+	}
+	return env.tb().Implies(p, q)
+}
+
+// applyLemma instantiates axiom/lemma e.Name at the given arguments.  With split set and a statement of the form
+// P ==> Q it returns (P, Q) so that the caller can prove P as an obligation of its own and assume Q outright.
+func (env *Env) applyLemma(e *Expr, split bool) (*Term, *Term) {
 	r := env.r
 	ax, ok := r.e.specs.Axioms[e.Name]
 	isLemma := false
@@ -1226,7 +1246,10 @@ func (env *Env) useAxiom(e *Expr) *Term {
 	if !isLemma {
 		r.e.usedAxioms[e.Name] = true
 	}
-	return ce.EvalBool(ax.Body)
+	if split && ax.Body.Kind == "binary" && ax.Body.Op == "==>" {
+		return ce.EvalBool(ax.Body.Args[0]), ce.EvalBool(ax.Body.Args[1])
+	}
+	return nil, ce.EvalBool(ax.Body)
 }
 
 // dispatchGhost expands a per-type ghost attribute when the dynamic type of the interface value is known
